@@ -221,7 +221,12 @@ int sqfs_block_processor_sync(sqfs_block_processor_t *proc)
 			return ret;
 	}
 
-	return 0;
+	/*
+	  Everything has been handed back, including an item whose worker
+	  failed: the pool hands that one back like any other, the failure
+	  is only visible in the pool status.
+	 */
+	return proc->pool->get_status(proc->pool);
 }
 
 int sqfs_block_processor_finish(sqfs_block_processor_t *proc)
